@@ -1,23 +1,17 @@
-import ZvbiModel.Search.LemmasCache
-import ZvbiModel.Search.LemmasSearch
-import ZvbiModel.Search.Matcher
+import ZvbiModel.Search.WitnessBase
+import ZvbiModel.Search.Current
 /-!
 # Concrete witnesses (C17): the states and call sequences on which the property FAILED before the repairs
 5e41e82 (D3, D2 at 256 pages), ed2772e (D4), ce86777 (D5), 8b7ac93 (D1) - now evaluated to the correct answers.
-Closed terms are evaluated by the kernel (`decide +kernel`); this file holds the walk-level facts, WitnessD3 /
+The walks and searches are evaluated in the source shape of the CURRENT /repo (`Shape.current`, read by
+translate/gen_search.py); none of these inputs involves sub-page number 0x3F7F at a start position, so the answers are the
+same in both shapes.  Closed terms are evaluated by the kernel (`decide +kernel`); this file holds the walk-level facts, WitnessD3 /
 WitnessD4 one whole `vbi_search_next` each (the kernel needs ~40 s per page text: `hay ++ [u]` is quadratic there).  Each witness is replayed on the C code
 (corpus/C17/D*.ops).  The general statements are in Props/C17.lean; these are their instances on the historical
 failing inputs.
 -/
 namespace Zvbi.Search
 set_option maxRecDepth 100000
-
-def textRow (s : String) : List Cell := s.toList.map (fun ch => ⟨ch.toNat, 0⟩)
-
-/-- rows 1..3, "xx ab yy" in row 3 -/
-def abPage : Text := [[], [], textRow "xx ab yy"]
-
-def exAb : Exec := exactLit false [0x61, 0x62]
 
 /-! ## D4: the start page of a backward search -/
 
@@ -27,16 +21,12 @@ def cexD4 : Cache := build [⟨0x102, 0, 0, abPage⟩]
 /-- `vbi_search_new (0x102, VBI_ANY_SUBNO, "ab")` -/
 def cexD4Search : SearchSt := (searchNew 0x102 ANY_SUBNO 2).getD {}
 
-/-- callback that records what it is given and stops the walk at its second call -/
-def logTwo : Callback (List (Nat × Nat × Bool)) := fun log p e w =>
-  (if log.length ≥ 1 then 1 else 0, log ++ [(p, e.subno, w)])
-
 /-- the backward walk from (102, 3F7E) - where `vbi_search_new (102, ANY)` puts the start of a backward pass - stays
     on page 102 and reaches its sub-page 0 in the FIRST sweep (before ed2772e it left the page at once) -/
 theorem cexD4_facts :
     (cexD4Search.stopPgno1, cexD4Search.stopSubno1) = (0x102, 0x3F7E) ∧
-    (walkPositions cexD4 0x102 0x3F7E (-1)).take 2 = [(0x102, 0x3F7E, false), (0x102, 0, false)] ∧
-    (walk logTwo walkFuel cexD4 [] 0x102 0x3F7E (-1)).st.take 1 = [(0x102, 0, false)] := by
+    (walkPositions Shape.current cexD4 0x102 0x3F7E (-1)).take 2 = [(0x102, 0x3F7E, false), (0x102, 0, false)] ∧
+    (walk Shape.current logTwo walkFuel cexD4 [] 0x102 0x3F7E (-1)).st.take 1 = [(0x102, 0, false)] := by
   refine ⟨by decide +kernel, by decide +kernel, by decide +kernel⟩
 
 /-! ## D3: sub-page number 0 in the statistics -/
@@ -47,7 +37,7 @@ def cexD3 : Cache := build [⟨0x899, 0, 0, abPage⟩, ⟨0x899, 5, 0, []⟩]
 /-- the window of page 899 is [0, 5] (before 5e41e82: [5, 5]) and a forward walk from 8FF meets 899.0, then 899.5 -/
 theorem cexD3_facts :
     (cexD3.slots 0x899).stat = ⟨2, 0, 5⟩ ∧
-    (walk logTwo walkFuel cexD3 [] 0x8FF 0 1).st = [(0x899, 0, true), (0x899, 5, true)] := by
+    (walk Shape.current logTwo walkFuel cexD3 [] 0x8FF 0 1).st = [(0x899, 0, true), (0x899, 5, true)] := by
   refine ⟨by decide +kernel, by decide +kernel⟩
 
 /-! ## D2 at 256 pages: `n_subpages` is 16 bits wide now -/
@@ -67,7 +57,7 @@ theorem cexD2_facts :
 /-- hex page 1A2 with sub-codes 0x3F7E and 0x3F7F -/
 def cexD5 : Cache := build [⟨0x1A2, 0x3F7E, 0, []⟩, ⟨0x1A2, 0x3F7F, 0, []⟩]
 
-def cexD5Visits : List (Nat × Nat × Bool) := (walk logTwo walkFuel cexD5 [] 0x1A2 0x3F7D 1).st
+def cexD5Visits : List (Nat × Nat × Bool) := (walk Shape.current logTwo walkFuel cexD5 [] 0x1A2 0x3F7D 1).st
 
 theorem cexD5_facts :
     (cexD5.slots 0x1A2).chain.map (·.subno) = [0x3F7F, 0x3F7E] ∧
